@@ -396,6 +396,20 @@ def apply(body, fired):
                     # S4: for v in S
                     srcs = [Src(itc[0].text, True)]
                     rep = _gen_loop(ctx, srcs, names, loop_body, fired)
+                elif names is not None and len(names) == 1 and len(itc) >= 6 and itc[0].text == '&' and itc[-1].text == ']' and any(x.text == '[' for x in itc):
+                    # S4c: for v in &PATH[..HI] / &mut PATH[..HI]: the first HI elements (slicing panics if HI exceeds the length: kept as an obligation)
+                    mut_ = itc[1].kind == 'id' and itc[1].text == 'mut'
+                    ob = next(ix for ix, x in enumerate(itc) if x.text == '[')
+                    pth = itc[(2 if mut_ else 1):ob]
+                    inner = itc[ob + 1:-1]
+                    if pth and all(x.kind == 'id' or x.text == '.' for x in pth) and len(inner) >= 3 and inner[0].text == '.' and inner[1].text == '.' and match_close(itc, ob) == len(itc) - 1:
+                        path = ''.join(x.text for x in pth)
+                        hi = body[inner[2].start:inner[-1].end].strip()
+                        ctx_pre = f'if ({hi}) > ({path}).len() {{ vpanic(); }}'
+                        srcs = [Src(path, mut_, take=hi)]
+                        rep = _gen_loop(ctx, srcs, names, loop_body, fired)
+                        if rep is not None:
+                            rep = rep.replace(';{', ';{\n' + ctx_pre, 1)
                 elif names is not None and len(names) == 1 and len(itc) >= 2 and itc[0].text == '&' and all(x.kind == 'id' or x.text == '.' for x in itc[1:]) and itc[-1].kind == 'id' and itc[-1].text != 'mut':
                     # S4b: for v in &PATH / &mut PATH   (PATH: identifiers joined by `.`): elements by shared / mutable reference
                     mut_ = itc[1].kind == 'id' and itc[1].text == 'mut'
